@@ -421,8 +421,15 @@ class Contract:
         else:
             res = self.make_result(it, pre, a)
             post = st.snapshot()
+            feasible_before = st.feasible()
             for _n, f in self.ensures(it, pre, post, a, res):
-                st.assume(as_z3(f))
+                try:
+                    st.assume(as_z3(f))
+                except Infeasible:
+                    raise Unsupported(f'postcondition clause {_n!r} of {self.name} is literally false at a call site '
+                                      f'(vacuity guard)')
+            if feasible_before and not st.feasible():
+                raise Unsupported(f'postcondition of {self.name} contradicts the state at a call site (vacuity guard)')
             if isinstance(res, SymV):
                 res = lower(res.t, st)
         st.emit('call', fn=self.name, a=a, res=res, exc=None, pre=pre, post=post, case=None, pre_call=pre_call)
